@@ -22,12 +22,22 @@ Theorem emitted_refs_resolve : forall ctx s fuel jd,
 Proof. exact emit_schema_refs_resolve. Qed.
 Print Assumptions emitted_refs_resolve.
 
-(* ... but the jenny need not return: a foreign type that refers to itself is collected on every round
-   (witness Model/JsonSchemaOutSpec.v w_rec_ctx: alpha.Root{x: ref beta.Node}, beta.Node{next?: ref beta.Node}) *)
-Theorem foreign_recursive_type_never_ends :
-  exists s, In s w_rec_ctx /\ forall fuel, emit_schema w_rec_ctx fuel s = OutOfFuel.
-Proof. exact w_rec_never_ends. Qed.
-Print Assumptions foreign_recursive_type_never_ends.
+(* ... and the jenny returns: the loop over foreign objects converts every SelfRef at most once, so for EVERY
+   context (no well-formedness needed), every schema and every fuel >= number of objects of the context + 2
+   (= emit_fuel) the emitter is Ok -- never OutOfFuel, the model's reading of a Go loop that does not end *)
+Theorem emitter_returns : forall ctx s fuel,
+    S (S (count_objects ctx)) <= fuel -> exists jd, emit_schema ctx fuel s = Ok jd.
+Proof. exact emit_schema_returns. Qed.
+Print Assumptions emitter_returns.
+
+(* the former witness of non-termination (alpha.Root{x: ref beta.Node}, beta.Node{next?: ref beta.Node};
+   Model/JsonSchemaOutSpec.v w_rec_ctx): Node is converted once, every $ref resolves *)
+Example foreign_recursive_type_converted_once :
+  exists jd, emit_schema w_rec_ctx (emit_fuel w_rec_ctx) w_rec_schema = Ok jd /\
+             def_names jd = ["Root"; "Node"] /\ refs_resolve_b jd = true /\
+             om_get (jd_defs jd) "Node" =
+             Some (JSStruct [] [("next", (JSRef "beta" "Node", "", None))], "").
+Proof. exact w_rec_terminates. Qed.
 
 (* ---------- every object and field of the IR appears under its own name ---------- *)
 (* full statement: the definition stored under an object's name is that object's own *)
